@@ -5,6 +5,8 @@
   line (`BAD …`), then `SUMMARY …`.
 -/
 import Cachelito.Monitors
+import Cachelito.MacroDriver
+import Cachelito.MemDriver
 
 open Cachelito Cachelito.Driver Cachelito.Monitors
 
@@ -63,13 +65,46 @@ partial def loop (h : IO.FS.Stream) (f : String → Tally → IO Tally) (acc : T
     let acc ← f line acc
     loop h f acc
 
-def main (args : List String) : IO UInt32 := do
+/-- modes whose handler maps one line to "ok" or to findings joined by " ;; " (DIFF … / MON … / BAD …) -/
+partial def simpleMode (stdin : IO.FS.Stream) (h : String → String) : IO UInt32 := do
+  let rec go (lines ok diffs mons bad : Nat) : IO (Nat × Nat × Nat × Nat × Nat) := do
+    let line ← stdin.getLine
+    if line.isEmpty then return (lines, ok, diffs, mons, bad)
+    let line := line.trimAsciiEnd.toString
+    if line.isEmpty || line.startsWith "#" then go lines ok diffs mons bad
+    else
+      let r := h line
+      if r = "ok" then go (lines + 1) (ok + 1) diffs mons bad
+      else
+        IO.println r
+        if r.startsWith "DIFF" then go (lines + 1) ok (diffs + 1) mons bad
+        else if r.startsWith "MON" then go (lines + 1) ok diffs (mons + 1) bad
+        else go (lines + 1) ok diffs mons (bad + 1)
+  let (lines, ok, diffs, mons, bad) ← go 0 0 0 0 0
+  IO.println s!"SUMMARY lines={lines} ok={ok} diffs={diffs} bad={bad} monitor_failures={mons} model_runs={lines}"
+  pure (if diffs = 0 && bad = 0 && mons = 0 then 0 else 1)
+
+partial def main (args : List String) : IO UInt32 := do
   let stdin ← IO.getStdin
   match args with
   | ["core"] =>
     let acc ← loop stdin handleCore {}
     IO.println s!"SUMMARY lines={acc.lines} ok={acc.ok} diffs={acc.diffs} bad={acc.bad} monitor_failures={acc.mon} model_runs={acc.tries} episodes={acc.episode}"
     pure (if acc.diffs = 0 && acc.bad = 0 && acc.mon = 0 then 0 else 1)
+  | ["macro"] =>
+    let rec go (ctx : MacroDriver.Ctx) : IO MacroDriver.Ctx := do
+      let line ← stdin.getLine
+      if line.isEmpty then return ctx
+      let line := line.trimAsciiEnd.toString
+      if line.isEmpty then go ctx
+      else
+        let (ctx', msgs) := MacroDriver.handleLine line ctx
+        for m in msgs do IO.println m
+        go ctx'
+    let ctx ← go {}
+    IO.println s!"SUMMARY lines={ctx.lines} ok={ctx.ok} diffs={ctx.diffs} bad={ctx.bad} model_runs={ctx.tries} episodes={ctx.episode}"
+    pure (if ctx.diffs = 0 && ctx.bad = 0 then 0 else 1)
+  | ["mem"] => simpleMode stdin Cachelito.MemDriver.handleMemLine
   | _ =>
-    IO.eprintln "usage: driver core < lines"
+    IO.eprintln "usage: driver core|macro|mem < lines"
     pure 2
